@@ -203,6 +203,11 @@ func checkC10(c *core.Ctx) {
 		`{ ...A0 ...A1 } fragment A0 on Query { ...A1 x: i } fragment A1 on Query { ... { ...A0 x: j(a: 1) } }`,
 		`{ q { l { ...X } ...A0 } } fragment X on Query { x: i } fragment A0 on Query { l { ...X x: j(a: 2) } ...A1 } fragment A1 on Query { ... on Query { l { x: j } ...A0 } }`,
 		`query A { ...F } query B { ...G } fragment F on Query { ...G x: i } fragment G on Query { ... on Query { ...F x: j } }`,
+		// every spread of the cycle hidden inside an inline fragment (no fragment definition holds a spread directly or
+		// under plain fields), a conflicting sibling after it
+		`{ ...A } fragment A on Query { q { x: i ... on Query { ...A } } x: j(a: 1) }`,
+		`{ q { ...A } } fragment A on Query { l { x: i ... { ...B } } x: j } fragment B on Query { ... on Query { q { ...A } x: j(a: 2) } x: i }`,
+		`{ ...A } fragment A on Query { ... on Query { ... on Query { ...A } } q { x: i } q { x: j } }`,
 	} {
 		rq.Pairs = append(rq.Pairs, []string{adversarySDL, q})
 	}
